@@ -170,7 +170,11 @@ impl Corpus {
             'B' => gen_case(&gen::s_ast(), self.plan.seed, salt("c20-B"), idx).map(|a| a.render()),
             'C' => gen_case(&gen::s_near_miss(), self.plan.seed, salt("c20-C"), idx),
             'D' => {
-                if idx % 2 == 0 {
+                if idx % 8 == 7 {
+                    gen_case(&gen::s_langid_long_bytes(), self.plan.seed, salt("c20-D"), idx)
+                } else if idx % 16 == 6 {
+                    gen_case(&gen::s_locale_long_bytes(), self.plan.seed, salt("c20-D"), idx)
+                } else if idx % 2 == 0 {
                     gen_case(&gen::s_langid_bytes(), self.plan.seed, salt("c20-D"), idx)
                 } else {
                     gen_case(&gen::s_near_miss_langid(), self.plan.seed, salt("c20-D"), idx)
